@@ -7,6 +7,7 @@ import (
 	"testing"
 	"time"
 
+	"github.com/bfenetworks/bfe/bfe_http"
 	"pgregory.net/rapid"
 
 	"verif/harness/internal/ev"
@@ -132,10 +133,55 @@ func TestC26(t *testing.T) {
 		rec.Case(method+"|"+strings.Join(fpl, "|"), nontrivial, classes...)
 		rec.Sample(map[string]any{"request": raw})
 
-		_, m, _, err := w.exchangeOne([]byte(raw), method, 10*time.Second)
-		if err != nil || m == nil {
-			rt.Fatalf("C26 rig: no parsable response from BFE: %v", err)
+		front := rapid.SampledFrom([]string{"h1", "h1", "h2", "spdy"}).Draw(rt, "frontend")
+		if front != "h1" && hopPresent["Trailer"] {
+			// HTTP/2 and SPDY requests have no Content-Length here, so BFE frames the body
+			// chunked towards the backend and, having parsed the client's trailer
+			// declaration, announces the trailers of ITS OWN message with a Trailer field.
+			// That is the proxy's own framing (like its own Transfer-Encoding), not the
+			// client's field passing through: out of the property's domain.
+			rec.Excluded("trailer-declared-on-h2-spdy")
+			front = "h1"
 		}
+		rec.Class("front:" + front)
+		status := 0
+		switch front {
+		case "h1":
+			_, m, _, err := w.exchangeOne([]byte(raw), method, 10*time.Second)
+			if err != nil || m == nil {
+				rt.Fatalf("C26 rig: no parsable response from BFE: %v", err)
+			}
+			status = m.Status
+		case "h2":
+			cl, err := sys.NewH2Client(w.rig.HTTPSAddr)
+			if err != nil {
+				rt.Fatalf("C26 rig: h2 dial: %v", err)
+			}
+			hf := []sys.H2Field{{":method", method}, {":scheme", "https"}, {":path", target}, {":authority", "example.org"}}
+			for _, h := range perm {
+				hf = append(hf, sys.H2Field{strings.ToLower(h.Name), h.Value})
+			}
+			res, _ := cl.Request(hf, []byte(body), 5*time.Second)
+			cl.Close()
+			if res != nil && res.Status == "200" {
+				status = 200
+			}
+		case "spdy":
+			cl, err := sys.NewSpdyClient(w.rig.HTTPSAddr)
+			if err != nil {
+				rt.Fatalf("C26 rig: spdy dial: %v", err)
+			}
+			hh := bfe_http.Header{":method": {method}, ":scheme": {"https"}, ":path": {target}, ":host": {"example.org"}, ":version": {"HTTP/1.1"}}
+			for _, h := range perm {
+				hh[strings.ToLower(h.Name)] = append(hh[strings.ToLower(h.Name)], h.Value)
+			}
+			res, _ := cl.Request(hh, []byte(body), 5*time.Second)
+			cl.Close()
+			if res != nil && res.Header != nil && strings.HasPrefix(res.Header.Get(":status"), "200") {
+				status = 200
+			}
+		}
+		m := struct{ Status int }{status}
 		seen := w.seenFor(target)
 		w.forget(target)
 		if m.Status != 200 || len(seen) == 0 {
@@ -174,7 +220,8 @@ func TestC26(t *testing.T) {
 				}
 			}
 		}
-		if v, ok := bf["transfer-encoding"]; ok {
+		ownChunked := front != "h1" && body != "" // no Content-Length on h2/spdy: BFE frames the body chunked itself
+		if v, ok := bf["transfer-encoding"]; ok && !(ownChunked && len(v) == 1 && v[0] == "chunked") {
 			if !rec.Fail(rt, "transfer-encoding-forwarded", wit, "Transfer-Encoding reached the backend for a request without chunked body: %q", v) {
 				return
 			}
